@@ -27,6 +27,58 @@ func checkC07(c *Ctx) {
 	f := c.fn("C07.1", lib, "RegistrationManager", "ingestRegistration")
 	r.Rule("C07.1", "AddRegistration is dominated by every admission condition", 5)
 	r.Rule("C07.2", "liveness probe only when required, never bypassed when required", 3)
+	// the manager's PhantomIsLive is a pass-through of the tester's verdict for the same address and port
+	if g := c.fn("C07.2", "pkg/station/lib", "RegistrationManager", "PhantomIsLive"); g != nil {
+		var probe ssa.Value
+		for _, ci := range callsIn(g, func(_ string, cc *ssa.CallCommon) bool { return cc.IsInvoke() && cc.Method.Name() == "PhantomIsLive" }) {
+			a := ci.Common().Args
+			if len(a) == 2 && len(g.Params) == 3 && a[0] == ssa.Value(g.Params[1]) && a[1] == ssa.Value(g.Params[2]) {
+				probe = ci.Value()
+			}
+		}
+		n := 0
+		eachInstr(g, func(in ssa.Instruction) {
+			ret, ok := in.(*ssa.Return)
+			if !ok || len(ret.Results) != 2 || in.Block().Comment == "recover" {
+				return
+			}
+			n++
+			okk := probe != nil
+			for i := 0; i < 2 && okk; i++ {
+				rv := returnedValue(ret, i, nil)
+				// the i-th result of the probe, directly or through a field of a local that is assigned exactly once
+				src := rv
+				if u, isLoad := rv.(*ssa.UnOp); isLoad && u.Op == token.MUL {
+					if fa, isF := u.X.(*ssa.FieldAddr); isF {
+						if al, isA := fa.X.(*ssa.Alloc); isA && al.Referrers() != nil {
+							var val ssa.Value
+							cnt := 0
+							eachInstr(g, func(in2 ssa.Instruction) {
+								if st, ok := in2.(*ssa.Store); ok {
+									if fa2, ok := st.Addr.(*ssa.FieldAddr); ok && fa2.X == ssa.Value(al) && fa2.Field == fa.Field {
+										cnt++
+										val = st.Val
+									}
+								}
+							})
+							if cnt == 1 {
+								src = val
+							}
+						}
+					}
+				}
+				ex, isEx := src.(*ssa.Extract)
+				if !(isEx && ex.Tuple == probe && ex.Index == i) {
+					okk = false
+				}
+			}
+			r.Check(okk, "C07.2", "RegistrationManager.PhantomIsLive returns the tester's own verdict for (addr, port)", ret.Pos(), fnName(g), "pass-through of LivenessTester.PhantomIsLive(addr, port)",
+				"the liveness verdict handed to ingest is not, on this path, the result of probing this address and port with the configured tester: a registration can be admitted on a verdict that no probe produced (e.g. a zero value read from a copy)")
+		})
+		if n == 0 {
+			r.Unk("C07.2", "RegistrationManager.PhantomIsLive: returns", g.Pos(), fnName(g), "no return found")
+		}
+	}
 	if f != nil {
 		var add, probe, guardCall, validate *ssa.Call
 		for _, ci := range callsIn(f, shortIs("AddRegistration")) {
